@@ -688,3 +688,10 @@ impl CtlAbBa {
   pub fn ab(&self) -> usize { let x = self.a.rc_deref_mut(); let y = self.b.rc_deref_mut(); *x as usize + y.len() }
   pub fn ba(&self) -> usize { let y = self.b.rc_deref_mut(); let x = self.a.rc_deref_mut(); *x as usize + y.len() }
 }
+
+// ---------------------------------------------------------------- FIFO discipline (C03.S6, C04.M5, C05.F2)
+pub struct CtlStack<T> { stack: Vec<T> }
+impl<T> CtlStack<T> {
+  pub fn put(&mut self, v: T) { self.stack.push(v) }
+  pub fn get(&mut self) -> Option<T> { self.stack.pop() }
+}
